@@ -218,7 +218,7 @@ def units(tier):
     return u
 
 
-BUDGET = {"quick": 200, "thorough": 2400}
+BUDGET = {"quick": 200, "thorough": 1200}
 UNIT_PATH_CAP = {"quick": 3000, "thorough": 100000}
 BOUNDS = {
     "quick": "message with two oneof groups (int32/string/enum/message members; bool/bytes members) and plain fields; inductive step: every pre-state "
